@@ -1,13 +1,24 @@
 #!/bin/sh
-# usage: run_mutants.sh <prop> : applies each selftest mutant of <prop> to /repo, runs the check, reverts.
-# prints CAUGHT/MISSED per mutant
+# usage: run_mutants.sh <prop> : applies each selftest mutant / seeded change of <prop> to a scratch copy of
+# /repo's working tree (under mktemp -d, removed afterwards - /repo itself is never touched), runs the
+# property's check on the copy, prints CAUGHT/MISSED per change. Up to $JOBS (default 4) changes in parallel.
 PROP=$1
+JOBS=${JOBS:-4}
+one() {
+  d=$1
+  W=$(mktemp -d /tmp/govc_mut.XXXXXX)
+  (cd /repo && git ls-files -z | xargs -0 cp --parents -t "$W") 2>/dev/null
+  if ! (cd "$W" && git init -q . >/dev/null 2>&1; git -C "$W" apply "$d" 2>/dev/null); then echo "SKIP(no-apply) $d"; rm -rf "$W"; return; fi
+  OUT=$(/verif/bin/govc check -repo "$W" -prop $PROP -no-evidence -replay-dir "$W/.replay" 2>&1)
+  RC=$?
+  rm -rf "$W"
+  if [ $RC -eq 1 ]; then echo "CAUGHT $d: $(echo "$OUT" | grep -m1 VIOLATION | sed 's/.*obligation=//' | cut -c1-140)"; else echo "MISSED(rc=$RC) $d"; fi
+}
+N=0
 for d in /verif/selftest/mutants/$PROP/*.diff /verif/seeded/$PROP*/patch.diff; do
   [ -f "$d" ] || continue
-  if ! git -C /repo apply --check "$d" 2>/dev/null; then echo "SKIP(no-apply) $d"; continue; fi
-  git -C /repo apply "$d"
-  OUT=$(/verif/bin/govc check -prop $PROP -no-evidence 2>&1)
-  RC=$?
-  git -C /repo apply -R "$d"
-  if [ $RC -eq 1 ]; then echo "CAUGHT $d: $(echo "$OUT" | grep -m1 VIOLATION | sed 's/.*obligation=//' | cut -c1-110)"; else echo "MISSED(rc=$RC) $d"; fi
+  one "$d" &
+  N=$((N+1))
+  if [ $((N % JOBS)) -eq 0 ]; then wait; fi
 done
+wait
